@@ -186,4 +186,49 @@ example : register_set (fun _ _ => true) demoTable 0 ⟨.u32, 0x10002⟩ = (⟨.
 example : (register_set (fun _ _ => true) demoTable 0 ⟨.u32, 77⟩).1 = ⟨.success, 0⟩ ∧
     ((register_set (fun _ _ => true) demoTable 0 ⟨.u32, 77⟩).2.areas.map (·.mem)) = [[0, 0, 77 * 256, 0]] := by decide
 
+
+/-- **When a typed set is accepted.**  For a register that is linked to an area with a write callback and enough
+    storage (what `register_init` establishes): the checked set succeeds exactly when the value has the register's
+    type, satisfies its constraint and - for floats - is zero or normal; the unchecked one skips exactly the first
+    two tests.  In every other case the table is unchanged (`set_refused_unchanged`). -/
+theorem set_succeeds_iff (cb : Nat → Value → Bool) (t : Table) (idx : Nat) (v : Value) (wv : Bool) (e : Entry) (a : Area)
+    (hi : t.initialised = true) (he : t.entries[idx]? = some e) (ha : t.areas[e.area]? = some a)
+    (hw : a.hasWrite = true) (hfit : e.offset + e.type.size ≤ a.mem.length) :
+    (register_setx cb t idx v wv).1.code = .success ↔
+      (wv = true → (e.type = v.type ∧ checkOk cb t.duringInit e v = true)) ∧ floatOk e.type v.bits = true := by
+  simp only [register_setx, hi, he, ha, hw, rv_validate, Bool.not_true, Bool.false_eq_true, ↓reduceIte]
+  cases wv with
+  | false =>
+    simp only [Bool.false_and, Bool.false_eq_true, ↓reduceIte, false_implies, true_and]
+    simp only [ser]
+    cases hf : floatOk e.type v.bits with
+    | false => simp
+    | true =>
+      simp only [↓reduceIte]
+      have hs : ser t.bigEndian e.type v.bits = some (atomsOfOctets (Ufw.Spec.Endian.store t.bigEndian (2 * e.type.size) v.bits)) := by
+        simp only [ser, hf, ↓reduceIte]
+      have hl := ser_length t.bigEndian e.type v.bits _ hs
+      simp only [Area.write, hl, hfit, ↓reduceIte]
+  | true =>
+    simp only [Bool.true_and, forall_const]
+    by_cases hty : e.type = v.type
+    · cases hc : checkOk cb t.duringInit e v with
+      | false => simp [hty, hc]
+      | true =>
+        have hb : (e.type == v.type) = true := by simp [hty]
+        simp only [hb, Bool.true_and, hc, Bool.not_true, Bool.false_eq_true, ↓reduceIte, and_self, true_and]
+        simp only [ser]
+        cases hf : floatOk e.type v.bits with
+        | false => simp
+        | true =>
+          simp only [↓reduceIte]
+          have hs : ser t.bigEndian e.type v.bits = some (atomsOfOctets (Ufw.Spec.Endian.store t.bigEndian (2 * e.type.size) v.bits)) := by
+            simp only [ser, hf, ↓reduceIte]
+          have hl := ser_length t.bigEndian e.type v.bits _ hs
+          simp only [Area.write, hl, hfit, ↓reduceIte]
+          exact ⟨fun _ => ⟨⟨hty, trivial⟩, trivial⟩, fun _ => trivial⟩
+    · have hb : (e.type == v.type) = false := by simp [hty]
+      simp [hb, hty]
+
+
 end Ufw.Props.C01
